@@ -54,6 +54,9 @@ class Ctx(object):
         self.work = os.path.join(VERIF, '.work', '%s-%d' % (prop, os.getpid()))
         os.makedirs(self.work, exist_ok=True)
         self.replay_dir = os.path.join(VERIF, 'replays', prop)
+        if os.path.abspath(os.environ.get('VERIF_REPO', '/repo')) != '/repo':
+            # runs against scratch worktrees (mutation testing) keep their replay files apart
+            self.replay_dir = os.path.join(VERIF, '.work', 'replays-scratch', '%s-%d' % (prop, os.getpid()))
         shutil.rmtree(self.replay_dir, ignore_errors=True)     # replay files always belong to the latest run
         self.states = 0
         self.transitions = 0
@@ -181,6 +184,12 @@ class Ctx(object):
             ev['coverage']['machinery_failures'] = self.machinery[:5]
         os.makedirs(os.path.join(VERIF, 'evidence'), exist_ok=True)
         dst = os.path.join(VERIF, 'evidence', self.prop + '.json')
+        repo = os.path.abspath(os.environ.get('VERIF_REPO', '/repo'))
+        if repo != '/repo':
+            # a run against a scratch worktree (mutation testing) must not overwrite the evidence of /repo
+            os.makedirs(os.path.join(VERIF, '.work', 'evidence-scratch'), exist_ok=True)
+            dst = os.path.join(VERIF, '.work', 'evidence-scratch', '%s-%d.json' % (self.prop, os.getpid()))
+            ev['repo'] = repo
         tmp = dst + '.tmp%d' % os.getpid()
         with open(tmp, 'w') as f:
             f.write(dumps(ev, indent=1))
